@@ -4,7 +4,7 @@
     every run ([Consts.v]). *)
 From Coq Require Import List NArith ZArith Bool.
 Import ListNotations.
-Require Import Aurora.Consts Aurora.C38.Model Aurora.C38.Proofs Aurora.C38.ProofsFlood Aurora.C38.ProofsTerm Aurora.C38.ProofsTerm2.
+Require Import Aurora.Consts Aurora.C38.Model Aurora.C38.Proofs Aurora.C38.ProofsFlood Aurora.C38.ProofsTerm Aurora.C38.ProofsTerm2 Aurora.C38.ProofsConc.
 Local Open Scope N_scope.
 
 Definition W : N := Z.to_N (Consts.multicast_multicastMsgCache / 1000000).
@@ -30,6 +30,42 @@ Theorem C38_partition : forall (selfs : list addr) (evs : list ev) (nd : node),
      In p (nbrs (n_svc nd)) \/ In p (pend (n_svc nd))).
 Proof. exact (partition_thm W MaxKnown). Qed.
 Print Assumptions C38_partition.
+
+(** The same over SCHEDULES.  [Group.add] is split into its atomic actions as
+    coded — take g.mux; (for keep) ask route.IsNeighbor while holding it;
+    update the lists and unlock — and interleaved arbitrarily with the
+    environment (links dropping / coming up), with the disconnect handling of
+    Start (take one notification, snapshot the groups, remove the peer group
+    by group under each group's lock: [CHPop] / [CHVisit]) and with every other
+    registry event.  In every reachable state: all group objects are
+    partitioned; a connected peer of a registered group is a neighbour, or its
+    disconnect notification is queued, or the handler is at work on it and has
+    not reached that group yet; hence with nothing queued and the handler idle
+    every connected peer is a neighbour. *)
+Theorem C38_partition_interleaved : forall (evs : list cev),
+  let c := crun false MaxKnown cinit evs in
+  (forall o, In o (heap (c_svc c)) -> partitioned (o_grp o)) /\
+  (forall gid i o q, get_group (c_svc c) gid = Some i -> nth_error (heap (c_svc c)) i = Some o ->
+     In q (g_conn (o_grp o)) ->
+     In q (nbrs (c_svc c)) \/ In q (pend (c_svc c)) \/
+     (exists rem, c_hand c = Some (q, rem) /\ In i rem)) /\
+  (pend (c_svc c) = [] -> c_hand c = None ->
+   forall gid o q, get_obj (c_svc c) gid = Some o -> In q (g_conn (o_grp o)) -> In q (nbrs (c_svc c))).
+Proof. exact (partition_interleaved_thm MaxKnown). Qed.
+Print Assumptions C38_partition_interleaved.
+
+(** The variant of [add] that asks IsNeighbor BEFORE taking the lock and uses
+    the saved answer inside ([cstep true]) does not have the property: after
+    the 9-step schedule [early_witness] (lookup, link drops, handler runs to
+    completion, lock, commit) no add is in flight, the handler is idle,
+    nothing is queued, and a registered group lists a connected peer that is
+    not a neighbour. *)
+Theorem C38_add_lookup_before_lock_refuted :
+  let c := crun true MaxKnown cinit early_witness in
+  c_adds c = [] /\ c_hand c = None /\ pend (c_svc c) = [] /\
+  exists gid o q, get_obj (c_svc c) gid = Some o /\ In q (g_conn (o_grp o)) /\ ~ In q (nbrs (c_svc c)).
+Proof. exact (early_refuted_thm MaxKnown). Qed.
+Print Assumptions C38_add_lookup_before_lock_refuted.
 
 (** From ANY network state, for any event history (drops, duplicates, forged
     packets, time passing arbitrarily): the times at which node [n] hands
@@ -139,3 +175,11 @@ Example C38_hyps_satisfiable :
   /\ times sel_deliv 1 (false, [1], 1) (snd (run W MaxKnown (init_net [[1]; [2]; [3]]) ex_all)) = [0; W + 1]
   /\ times sel_fwd 1 (true, [1], 1) (snd (run W MaxKnown (init_net [[1]; [2]; [3]]) ex_all)) = [0; W + 1].
 Proof. vm_compute. repeat split; reflexivity. Qed.
+
+(** the schedule of the refutation on the code as it is: the handler's visit
+    blocks on the lock, the add commits, then the handler moves the peer to known *)
+Example C38_head_schedule :
+  let c := crun false MaxKnown cinit head_schedule in
+  (c_adds c, c_hand c, pend (c_svc c), nbrs (c_svc c), map o_grp (heap (c_svc c))) =
+  ([], None, [], [], [mkGroup [] [] [[2]]]).
+Proof. vm_compute. reflexivity. Qed.
